@@ -21,6 +21,8 @@ PRELUDE_ORDER = [
     "10_scalar.rs",
     ("20_group.tmpl", "Sig", "sig"),
     ("20_group.tmpl", "Pk", "pk"),
+    ("21_group_dec.tmpl", "Sig", "sig"),
+    ("21_group_dec.tmpl", "Pk", "pk"),
     "30_gt.rs",
     "31_abstract_spec.rs",
     "40_abstract_impl.rs",
